@@ -548,10 +548,24 @@ func rel(a, size int) string {
 // Run is the C13 monitor.
 func Run(r *ev.Run) {
 	r.Rule = "writers: every zap-provided writer x payload table (empty, whitespace-only, trailing newlines, 1 MiB, random); BufferedWriteSyncer over sinks that accept only part of each write (nil error) or fail once, with write lengths around and above Size; multi-syncer: every outcome vector over {full,short,zero}x{nil,error} for k sinks enumerated, on Write and Sync; wrappers: AddSync/Lock relay table; Lock exclusion: concurrent Write/Sync in a -race child with an unsynchronised in-flight counter; distinct = distinct (writer,payload) / vectors / runs"
-	writers(r)
-	bufferedOverPartialSink(r)
-	multi(r)
-	wrappers(r)
+	// every part runs under a watchdog: a wrapper that keeps its mutex after an error would
+	// otherwise hang the check itself; blocked-forever is decided by quiescence, not by time
+	for _, part := range []struct {
+		name string
+		f    func(*ev.Run)
+	}{{"writers", writers}, {"buffered-over-partial-sink", bufferedOverPartialSink}, {"multi", multi}, {"wrappers", wrappers}} {
+		h := mon.Watch(45*time.Second, func() { part.f(r) }, "lockedWriteSyncer", "BufferedWriteSyncer", "props/c13")
+		switch {
+		case h.Panicked != "":
+			r.Violate(ev.Violation{Case: "c13/" + part.name, Class: "writer-panic", Msg: "the " + part.name + " part panicked: " + h.Panicked})
+		case h.Dead:
+			r.Violate(ev.Violation{Case: "c13/" + part.name, Class: "writer-deadlock", Msg: "a Write or Sync through one of zap's writers never returned: every goroutine involved is blocked with an unchanged stack (a lock that is not released on some path?)", Witness: h.Dump})
+			return
+		case h.Hung:
+			r.Inconclusive("c13/" + part.name + ": did not finish within the watchdog but goroutines are still moving")
+			return
+		}
+	}
 	if r.Only == "" {
 		o := mon.ChildOpts{Race: true, Prop: "C13", Args: []string{"lock"}, Timeout: 15 * time.Minute}
 		oc := mon.RunChild(r, o)
